@@ -1,5 +1,5 @@
 #!/bin/sh
-# usage: tools/sweep_seeds.sh [all|first]   (default: first = the first seed of every property)
+# usage: tools/sweep_seeds.sh [all|first|last]   (default: first = the first seed of every property; last = the newest)
 # The procedure of the brief, literally: apply a seeded change to /repo itself, run the property's quick check
 # against /repo, undo the change straight afterwards. Only run this when nothing else is using /repo.
 # Results: seeded/SWEEP.json (evidence and replays of these runs go to /tmp, never to evidence/).
@@ -8,9 +8,10 @@ MODE="${1:-first}"
 [ -z "$(git -C /repo status --porcelain)" ] || { echo "/repo has local modifications; refusing"; exit 2; }
 OUT=/tmp/sweep_out; mkdir -p $OUT
 echo "[" > $OUT/sweep.json; FIRST=1; LAST=""
-for d in $(ls -d seeded/C*-* | sort); do
+SORT="sort"; [ "$MODE" = last ] && SORT="sort -r"
+for d in $(ls -d seeded/C*-* | $SORT); do
   name=$(basename $d); pid=${name%%-*}
-  if [ "$MODE" = first ] && [ "$pid" = "$LAST" ]; then continue; fi
+  if [ "$MODE" != all ] && [ "$pid" = "$LAST" ]; then continue; fi
   LAST=$pid
   P=$d/patch.diff; [ -f $d/patch.rebased.diff ] && P=$d/patch.rebased.diff
   if ! git -C /repo apply "$PWD/$P" 2>/dev/null; then
@@ -24,5 +25,5 @@ for d in $(ls -d seeded/C*-* | sort); do
   printf '{"seed":"%s","check_exit":%s,"violation_line":"%s"}' "$name" "$rc" "$v" >> $OUT/sweep.json
 done
 echo "]" >> $OUT/sweep.json
-cp $OUT/sweep.json seeded/SWEEP.json
+cp $OUT/sweep.json seeded/SWEEP.$MODE.json
 [ -z "$(git -C /repo status --porcelain)" ] && echo "/repo clean again"
